@@ -56,6 +56,7 @@ type C18Case struct {
 	Procs   int         `json:"procs"`
 	Reqs    []C18Req    `json:"reqs,omitempty"`
 	Server  bool        `json:"server,omitempty"` // go through httptest.NewServer instead of calling ServeHTTP directly
+	Proxy   bool        `json:"proxy,omitempty"`  // simulator answers with the actual response (context.WithActualResponse) instead of the flow report
 	Plugins []C18Plugin `json:"plugins,omitempty"`
 	Stmts   int         `json:"stmts,omitempty"` // plugin kind: number of annotated statements
 }
@@ -85,6 +86,7 @@ func genC18(t *rapid.T) any {
 	}
 	c.Kind = "sim"
 	c.Server = rapid.IntRange(0, 3).Draw(t, "server") == 3
+	c.Proxy = rapid.IntRange(0, 3).Draw(t, "proxy") == 3
 	n := rapid.IntRange(2, pick(12, 16)).Draw(t, "nreq")
 	for i := 0; i < n; i++ {
 		r := C18Req{Kind: rapid.SampledFrom([]string{"lookup", "lookup", "lookup", "rc", "rc", "pb", "pb", "pass", "error", "restart"}).Draw(t, "rkind")}
@@ -118,10 +120,11 @@ sub vcl_recv {
   if (req.http.X-Kind == "rc") {
     set var.n = ratelimit.ratecounter_increment(rc, req.http.X-Key, std.atoi(req.http.X-Inc));
     log "RC=" ratecounter.rc.bucket.60s;
+    set req.http.X-RC = ratecounter.rc.bucket.60s;
     error 602;
   }
   if (req.http.X-Kind == "pb") {
-    if (ratelimit.penaltybox_has(pb, req.http.X-Key)) { log "PB=1"; } else { log "PB=0"; }
+    if (ratelimit.penaltybox_has(pb, req.http.X-Key)) { log "PB=1"; set req.http.X-PB = "1"; } else { log "PB=0"; set req.http.X-PB = "0"; }
     if (req.http.X-Add == "1") { ratelimit.penaltybox_add(pb, req.http.X-Key, 10m); }
     error 603;
   }
@@ -139,6 +142,8 @@ sub vcl_fetch {
 }
 sub vcl_error {
   set obj.http.X-Echo-Err = req.http.X-Marker;
+  set obj.http.X-RC = req.http.X-RC;
+  set obj.http.X-PB = req.http.X-PB;
   log "M=" req.http.X-Marker " error " obj.status;
   return(deliver);
 }
@@ -155,6 +160,7 @@ type c18Resp struct {
 	status   int
 	rep      c06Report
 	raw      string
+	proxy    bool
 	panicked string
 }
 
@@ -174,7 +180,7 @@ func c18Request(i int, r C18Req, marker string) *http.Request {
 	return req
 }
 
-func c18Serve(ip *interpreter.Interpreter, req *http.Request) (out c18Resp) {
+func c18Serve(ip *interpreter.Interpreter, req *http.Request, proxy bool) (out c18Resp) {
 	defer func() {
 		if e := recover(); e != nil {
 			out.panicked = fmt.Sprintf("%v", e)
@@ -182,14 +188,30 @@ func c18Serve(ip *interpreter.Interpreter, req *http.Request) (out c18Resp) {
 	}()
 	rec := httptest.NewRecorder()
 	ip.ServeHTTP(rec, req)
+	if proxy {
+		return c18FromHTTP(rec.Result())
+	}
 	out.status = rec.Code
 	out.raw = rec.Body.String()
 	json.Unmarshal(rec.Body.Bytes(), &out.rep) // nolint:errcheck
 	return out
 }
 
-func c18New() *interpreter.Interpreter {
-	ip := interpreter.New(icontext.WithResolver(resolver.NewStaticResolver("main", c18VCL())))
+// c18FromHTTP turns an actual response (proxy mode) into the same shape: status, headers, body.
+func c18FromHTTP(res *http.Response) (out c18Resp) {
+	defer res.Body.Close()
+	body, _ := io.ReadAll(res.Body)
+	out.status, out.raw, out.proxy = res.StatusCode, string(body), true
+	out.rep.ClientResponse.StatusCode = res.StatusCode
+	out.rep.ClientResponse.Headers = map[string]string{}
+	for k, v := range res.Header {
+		out.rep.ClientResponse.Headers[strings.ToLower(k)] = strings.Join(v, ", ")
+	}
+	return out
+}
+
+func c18New(proxy bool) *interpreter.Interpreter {
+	ip := interpreter.New(icontext.WithResolver(resolver.NewStaticResolver("main", c18VCL())), icontext.WithActualResponse(proxy))
 	ip.Debugger = quietDebugger{}
 	return ip
 }
@@ -206,6 +228,17 @@ var c18Volatile = map[string]bool{"date": true, "age": true, "x-timer": true, "x
 // c18Norm renders the parts of a response the property names, with the marker replaced.
 func c18Norm(r c18Resp, marker string) string {
 	var b strings.Builder
+	if r.proxy {
+		// the actual response: status, the headers the VCL and the cache produce, body
+		fmt.Fprintf(&b, "status=%d\n", r.status)
+		for _, k := range []string{"x-echo", "x-echo-err", "x-cache", "x-cache-hits", "x-rc", "x-pb", "x-origin"} {
+			if v, ok := r.rep.ClientResponse.Headers[k]; ok {
+				fmt.Fprintf(&b, "  %s: %s\n", k, strings.ReplaceAll(v, marker, "<M>"))
+			}
+		}
+		fmt.Fprintf(&b, "body: %q\n", r.raw)
+		return b.String()
+	}
 	fmt.Fprintf(&b, "status=%d restarts=%d error=%q cached=%v\nflows:", r.status, r.rep.Restarts, r.rep.Error, r.rep.Cached)
 	for _, f := range r.rep.Flows {
 		b.WriteString(" " + f.Subroutine)
@@ -239,30 +272,25 @@ type c18Obs struct {
 }
 
 func c18Observe(r C18Req, resp c18Resp) (o c18Obs) {
+	h := resp.rep.ClientResponse.Headers
 	switch r.Kind {
 	case "lookup":
-		for _, f := range resp.rep.Flows {
-			if f.Subroutine == "vcl_hit" {
-				o.hit, o.have = true, true
-				o.hits, _ = strconv.Atoi(resp.rep.ClientResponse.Headers["x-cache-hits"])
-			}
-			if f.Subroutine == "vcl_miss" {
-				o.have = true
-			}
+		switch h["x-cache"] {
+		case "HIT":
+			o.hit, o.have = true, true
+			o.hits, _ = strconv.Atoi(h["x-cache-hits"])
+		case "MISS":
+			o.have = true
 		}
 	case "rc":
-		for _, l := range resp.rep.Logs {
-			if strings.HasPrefix(l.Message, "RC=") {
-				o.rc, _ = strconv.Atoi(strings.TrimPrefix(l.Message, "RC="))
-				o.have = true
-			}
+		if v, ok := h["x-rc"]; ok {
+			o.rc, _ = strconv.Atoi(v)
+			o.have = true
 		}
 	case "pb":
-		for _, l := range resp.rep.Logs {
-			if strings.HasPrefix(l.Message, "PB=") {
-				o.pb, _ = strconv.Atoi(strings.TrimPrefix(l.Message, "PB="))
-				o.have = true
-			}
+		if v, ok := h["x-pb"]; ok {
+			o.pb, _ = strconv.Atoi(v)
+			o.have = true
 		}
 	default:
 		o.have = true
@@ -285,7 +313,10 @@ func checkC18(raw json.RawMessage) iso.Result {
 	}
 	col := iso.NewCollector("C18")
 	col.Label("kind:sim", fmt.Sprintf("procs:%d", c.Procs))
-	ip := c18New()
+	ip := c18New(c.Proxy)
+	if c.Proxy {
+		col.Label("mode:actual-response")
+	}
 	n := len(c.Reqs)
 	resps := make([]c18Resp, n)
 	markers := make([]string, n)
@@ -301,7 +332,7 @@ func checkC18(raw json.RawMessage) iso.Result {
 	// send issues a request the way the case says: direct call or through the HTTP server
 	send := func(req *http.Request, path string) (r c18Resp) {
 		if srv == nil {
-			return c18Serve(ip, req)
+			return c18Serve(ip, req, c.Proxy)
 		}
 		out, err := http.NewRequest(http.MethodGet, srv.URL+path, nil)
 		if err != nil {
@@ -314,6 +345,9 @@ func checkC18(raw json.RawMessage) iso.Result {
 		if err != nil {
 			r.panicked = "transport: " + err.Error()
 			return r
+		}
+		if c.Proxy {
+			return c18FromHTTP(res)
 		}
 		defer res.Body.Close()
 		body, _ := io.ReadAll(res.Body)
@@ -340,7 +374,7 @@ func checkC18(raw json.RawMessage) iso.Result {
 
 	plan := func() string {
 		var b strings.Builder
-		fmt.Fprintf(&b, "GOMAXPROCS=%d server=%v\n", c.Procs, c.Server)
+		fmt.Fprintf(&b, "GOMAXPROCS=%d server=%v actual-response=%v\n", c.Procs, c.Server, c.Proxy)
 		for i, r := range c.Reqs {
 			fmt.Fprintf(&b, "  #%d %s %s key=%s inc=%d add=%v delay=%dus -> obs %+v\n", i, r.Kind, r.URL, r.Key, r.Inc, r.Add, r.DelayUS, c18Observe(r, resps[i]))
 		}
@@ -352,7 +386,7 @@ func checkC18(raw json.RawMessage) iso.Result {
 			col.Failf("request #%d: ServeHTTP panicked / transport failed: %s\n%s", i, r.panicked, plan())
 			return col.Done()
 		}
-		if len(r.rep.Flows) == 0 {
+		if !c.Proxy && len(r.rep.Flows) == 0 {
 			col.Failf("request #%d: response is not a flow report (status %d): %.300s\n%s", i, r.status, r.raw, plan())
 			return col.Done()
 		}
@@ -466,24 +500,24 @@ func checkC18(raw json.RawMessage) iso.Result {
 	}
 	// 3. each response equals the sequential response for the same observation
 	for i, r := range c.Reqs {
-		ref := c18New()
+		ref := c18New(c.Proxy)
 		switch r.Kind {
 		case "lookup":
 			if obs[i].hit {
 				for k := 0; k < obs[i].hits; k++ { // one miss, then the earlier hits
-					c18Serve(ref, c18Request(0, r, "prefix"))
+					c18Serve(ref, c18Request(0, r, "prefix"), c.Proxy)
 				}
 			}
 		case "rc":
 			if before := obs[i].rc - r.Inc; before > 0 {
-				c18Serve(ref, c18Request(0, C18Req{Kind: "rc", URL: r.URL, Key: r.Key, Inc: before}, "prefix"))
+				c18Serve(ref, c18Request(0, C18Req{Kind: "rc", URL: r.URL, Key: r.Key, Inc: before}, "prefix"), c.Proxy)
 			}
 		case "pb":
 			if obs[i].pb == 1 {
-				c18Serve(ref, c18Request(0, C18Req{Kind: "pb", URL: r.URL, Key: r.Key, Add: true}, "prefix"))
+				c18Serve(ref, c18Request(0, C18Req{Kind: "pb", URL: r.URL, Key: r.Key, Add: true}, "prefix"), c.Proxy)
 			}
 		}
-		want := c18Norm(c18Serve(ref, c18Request(i, r, markers[i])), markers[i])
+		want := c18Norm(c18Serve(ref, c18Request(i, r, markers[i]), c.Proxy), markers[i])
 		got := c18Norm(resps[i], markers[i])
 		if want != got {
 			col.Failf("request #%d (%s %s): the concurrent response differs from the one-at-a-time response in the same shared state\n--- sequential ---\n%s--- concurrent ---\n%s%s", i, r.Kind, r.URL, want, got, plan())
